@@ -453,7 +453,10 @@ def runTrace (fuel : Nat) : St → List Tok → Nat → Nat → Bool → TraceRe
   | s, [], _, n, bad => .ok s n bad
   | s, t :: ts, i, n, bad =>
     let name := t.role ++ ":" ++ t.site
-    if t.site.startsWith "obs.selfw." then
+    if t.site.startsWith "obs.udpbad." then
+      -- the Stop has returned and the run is over in the model too (a dropped datagram is no event of the life cycle)
+      if s.st == .inactive && s.lp == .off && stoppers s == 0 then runTrace fuel s ts (i + 1) n bad else .obsMismatch i name s
+    else if t.site.startsWith "obs.selfw." then
       -- the model agrees: nothing is being written (`writing` needs a live loop that set it)
       if s.writing == false then runTrace fuel s ts (i + 1) n bad else .obsMismatch i name s
     else if t.site.startsWith "obs.selfend." then
@@ -648,6 +651,20 @@ def chkRpcRestart : List Tok → Nat → Bool → Option String
       else chkRpcRestart ts inflight stopRet
     else chkRpcRestart ts inflight stopRet
 
+/-- implementation only: after one undecodable datagram the run must go on (blocks processed from the valid stream)
+and the following Stop must return.  Token `obs.udpbad.<progress>.<stop returned>.<state>`. -/
+def chkUdpBad : List Tok → Option String
+  | [] => none
+  | t :: ts =>
+    if t.site.startsWith "obs.udpbad." then
+      match (t.site.drop 11).toString.splitOn "." with
+      | [p, k, st] =>
+        if p != "1" || k != "1" then
+          some s!"C10:udp-bad-datagram-wedges-source after one undecodable UDP datagram: blocks still processed={p}, Stop returned within 3 s={k}, GetState()={st}"
+        else chkUdpBad ts
+      | _ => chkUdpBad ts
+    else chkUdpBad ts
+
 /-- implementation only: after the run is over (observed Inactive) something of its writing is left: the writing
 state still Active, or a file writer still installed on some channel.  Token `obs.selfw.<state>.<active>.<writers>`. -/
 def chkSelfW : List Tok → Option String
@@ -702,7 +719,8 @@ def chkHold : List Tok → Option String
 was a Stop ⇒ the source reports Inactive; a Start issued in these schedules (always on a source whose Stops have
 returned) is never refused by `SetStateStarting`. -/
 def chkImplOnly (ln : Line) (toks : List Tok) (calls : List (String × Nat)) (fin : Fin) : Option String :=
-  if (chkSelfW toks).isSome then chkSelfW toks
+  if (chkUdpBad toks).isSome then chkUdpBad toks
+  else if (chkSelfW toks).isSome then chkSelfW toks
   else if (chkSelfEnd toks).isSome then chkSelfEnd toks
   else if (chkReuse toks).isSome then chkReuse toks
   else if (chkHold toks).isSome then chkHold toks
@@ -763,6 +781,7 @@ def judgeRun (ln : Line) (toks0 : List Tok) (calls : List (String × Nat)) (fin 
             (if ln.sched == "rpc" then ["rpcLayer", "gated"] else []) ++
             (if ln.sched == "holdStop" then ["stopHeldLong", "gated"] else []) ++
             (if ln.sched == "abacoSelfEnd" then ["selfEnd", "timeoutEnd", "gated"] else []) ++
+            (if ln.sched == "udpBad" then ["udp", "badDatagram", "gated"] else []) ++
             (if countSite toks "asm.spawn" > 0 then ["acquisitionSteps", "gated"] else []) ++
             (if countSite toks "sc.start.refused" > 0 then ["startRefusedWhileActive"] else []) ++
             (if ln.sched == "rnd" || ln.sched == "stopAt" || ln.sched == "reuse" || ln.sched == "timing" then ["gated"] else []) ++
@@ -835,7 +854,9 @@ def runLine (ts : List String) : Verdict :=
   | .ok ln =>
     match ln.out with
     | .panic cls =>
-      if ln.sched == "abacoSelfEnd" then
+      if ln.sched == "udpBad" then
+        .viol s!"C10:udp-bad-datagram-wedges-source after one undecodable UDP datagram the source wedged and the server crashed ({cls})"
+      else if ln.sched == "abacoSelfEnd" then
         .viol s!"C10:abaco-no-clean-self-end the packet stream stopped and the server crashed instead of ending the run ({cls})"
       else if (cls.splitOn "Called_Stop_on_a_Starting").length > 1 then
         .viol "C10:stop-on-starting-panic Stop called while the source is Starting panics (server exits)"
